@@ -91,10 +91,11 @@ def judge(act, cfg, problem, n0, nit0, add, tag, f_prev=None):
     g = np.asarray(res.jac, dtype=float)
     if msg == MSG[0]:
         pg = pgnorm(x, g, problem.lb, problem.ub)
-        if not pg <= gtol:
+        # (a mathematically equivalent formula for the projected gradient may differ by a few ulps)
+        if not pg <= gtol + 8 * np.finfo(float).eps * max(abs(gtol), pg):
             add("pgtol_message_false", dict(w, projected_gradient=pg, gtol=gtol))
     elif msg == MSG[2]:
-        if ftarget is None or not (float(res.fun) / act.scale <= ftarget):
+        if ftarget is None or not (float(res.fun) / act.scale <= ftarget + 8 * np.finfo(float).eps * abs(ftarget)):
             add("target_message_false", dict(w, fun=float(res.fun), scale=act.scale, ftarget=ftarget))
     elif msg == MSG[3]:
         if not res.nit >= cfg["maxiter"]:
